@@ -17,7 +17,7 @@ CORRS = [
          describe="EventGenerator.generate vs model on generated class universes and instances"),
     Corr("bind.parse", gen_parse, impl_parse, compare=cmp_parse, classify=classify_parse,
          describe="NodeParser(EventsHandler) vs model on real documents and single-point faults"),
-    Corr("bind.roundtrip", gen_roundtrip, impl_roundtrip, compare=cmp_parse, classify=classify_rt,
+    Corr("bind.roundtrip", gen_roundtrip, impl_roundtrip, compare=cmp_roundtrip, classify=classify_rt,
          describe="real serialize({native,lxml}) + parse({native,lxml}) vs model generate+write+parse"),
 ]
 
@@ -118,7 +118,7 @@ def gen_ctxF1(rng, tier):
         u = B.Universe(desc)
         _UNIS[u.modname] = u
         yield {"ctx": u.export_ctx(), "desc": desc, "_uni": u.modname}
-    for _ in range(n_cases(tier, 60, 1500)):
+    for _ in range(n_cases(tier, 60, 600)):
         u, desc, ctx = new_universe(rng, F1_FEATURES)
         yield {"ctx": ctx, "desc": desc, "_uni": u.modname}
 
@@ -197,7 +197,7 @@ def excluded_region(desc, value):
 
 
 def gen_oracle(rng, tier):
-    for _ in range(n_cases(tier, 150, 3000)):
+    for _ in range(n_cases(tier, 150, 1500)):
         u, desc, ctx = new_universe(rng, F1_FEATURES)
         for _ in range(6):
             try:
@@ -229,8 +229,7 @@ def adapt_disagreement(d):
 def covered_oracle(a, msg):
     if a.get("_model_roundtrips"):
         return None  # the model of the unchanged code returns the object: no listed defect applies
-    if not ns_agree_everywhere(a["ctx"]):
-        return "C01-ns-chain"
+    # (namespace chains are no excuse any more: repair c01g-01)
     return excluded_region(a["desc"], a["value"])
 
 
@@ -267,7 +266,7 @@ def gen_wide(rng, tier):
         u = B.Universe(desc)
         _UNIS[u.modname] = u
         yield {"ctx": u.export_ctx(), "value": value, "clazz": "Root", "desc": desc, "_uni": u.modname, "feat": W.FEAT}
-    for _ in range(n_cases(tier, 120, 3000)):
+    for _ in range(n_cases(tier, 120, 1200)):
         u, desc, ctx = new_universe(rng, W.WIDE_FEATURES)
         for _ in range(5):
             try:
@@ -299,9 +298,7 @@ CORRS.append(
 
 def covered_wide(a, msg):
     if not W.ctx_expected(a["ctx"], _ns_agree_wide):
-        if not _ns_agree_wide(a["ctx"]):
-            return "C01-ns-chain"
-        return "C01-nillable-token-lists-empty / C01-tokens-in-sequence-typeerror / text var with child elements (excluded universes)"
+        return "out-of-claim: text var with child elements / token-list or wrapped var inside a sequence group (excluded universes)"
     r = W.regions(a["desc"], a["value"], a["ctx"])
     return r[0] if r else None
 
@@ -329,7 +326,6 @@ def _replay(desc, value, expect):
 FINDINGS = {
     "C01-empty-str-element-default": lambda: _replay(EMPTY_STR_DESC, EMPTY_STR_VALUE, lambda x: '"ed"' in x),
     "C01-attr-datatype-clark-name": lambda: _replay(ATTR_DT_DESC, ATTR_DT_VALUE, lambda x: "xs:string" in x),
-    "C01-ns-chain": lambda: _replay(CHAIN_DESC, CHAIN_VALUE, lambda x: x == "ParserError"),
     **W.FINDINGS,
 }
 TRUSTED = [
